@@ -12,7 +12,7 @@ def check(pid, category, technique, text, note, design_ref, engine):
         "quick_cmd": f"./check {pid} quick",
         "thorough_cmd": f"./check {pid} thorough",
         "evidence_file": f"/verif/evidence/{pid}.json",
-        "replay_cmd_template": "./check replay {path}",
+        "replay_cmd_template": "./check replay {path}" if pid != "C18" else "./check C18-replay {path}",
         "engine": engine,
         "level_claimed": {"category": category, "text": text, "design_ref": design_ref},
         "level_note": note,
@@ -120,6 +120,12 @@ check("C07", "fault_enumeration",
       "A baseline bundle (router config, a rule with every optional block, a partner rule closing a redirect chain, request, response head and body, example, analysis parameters) drives ~60 public entry points in proxy order: deserialisation, Router insert/cache, request construction and rebuild, match/trace/get_trace, Action building, status/header/body filtering with 3 chunkings, logging, JSON round trips, and the test-examples / explain / impact / unit-ids analyses in both entry-point families (which run the redirect-loop analysis). A deviation replaces one of ~150 fields by one value of its hostile alphabet (~1000 values: marker regexes, transformer options incl. every (from,to) pair and multi-byte captures, cidr/date/time/weekday strings, URLs, targets without host, status/rank/hops/sampling extremes, selectors, element paths, 17 response bodies incl. 2 MiB text/script/comment, 20000-deep nesting, escaped and double-escaped script data, truncated and valid compressed streams). Quick: all bundles with 0 and 1 deviations; thorough: all pairs. Plus every null/valid pattern of the pointer arguments of all 23 extern C entry points x 3 payload variants (plain, empty, non-UTF-8 / null fields in header lists), including calling the init functions twice. Oracle: no unwind (panic location recorded by a hook), no abort or signal (must reproduce in isolation, with entry tracing), no 20 s stall.",
       "Release profile only. Inputs that do not deserialise are outside the domain. Coverage = the alphabets x the deviation bound.",
       "DESIGN.md 3.5, 4 (C07)", "E5 deviation-bounded fault explorer")
+
+check("C18", "model_checking",
+      "exhaustive enumeration of well-typed extern C call sequences executed under an auditing global allocator (layout / liveness / leak audit) with native-API value oracles",
+      "Every well-typed sequence (a handle is used after its creation and before its single release; everything still live is released at the end through its matching function) of <=4 (quick) / <=5 (thorough) calls over a 34-call alphabet covering requests (3 constructors), actions, body filters (incl. creation that yields NULL), trusted proxies, buffers (empty, 1 byte, 4 KiB, capacity != length, from String), serialisers, header-list filtering, body filtering with a real and with a NULL filter, logging, duplicate/clone and all drop/close functions. Each sequence runs 4 times in a dedicated binary whose #[global_allocator] records (pointer -> size, align) of every live allocation in a static table: warm-up, measured run (every dealloc/realloc is checked: unknown pointer = double free / foreign pointer, size or alignment different from the allocation), and two leak probes (live count and bytes must return to the starting value). Values are compared with the native Rust API on the same inputs (buffers byte-equal, header lists as multisets, JSON strings equal).",
+      "Single-threaded. TrustedProxies is documented as never freed, sequences creating one are excluded from the leak account only. Returned strings / header nodes are released by the harness the way they were allocated.",
+      "DESIGN.md 3.6, 4 (C18)", "E6 FFI call-sequence explorer")
 
 ALL = [f"C{n:02d}" for n in range(1, 20)]
 
